@@ -176,6 +176,14 @@ structure Register (α : Type) where
   serialize : α → R Bytes
   /-- `Register::write(data, memory)` — the default method unless the template overrides it. -/
   write : α → Bytes → R Bytes
+  /-- The same call as a TOTAL transition of the `&mut [u8]` argument: the image after the call
+  in EVERY outcome (`Ok`, `Err`, panic) together with the outcome.  The templates below define it
+  statement by statement; the default merely says "a failing call leaves the image alone". -/
+  writeSt : α → Bytes → Bytes × R Unit := fun a m =>
+    match write a m with
+    | .ok m' => (m', .ok ())
+    | .err e => (m, .err e)
+    | .panic => (m, .panic)
 
 /-- `Register::range()` -/
 def Register.rangeEnd {α} (r : Register α) : Nat := r.address + r.length
@@ -187,6 +195,22 @@ def defaultWrite {α} (address length : Nat) (serialize : α → R Bytes) (data 
   | .ok d => splice memory address (address + length) d
   | .err e => .err e
   | .panic => .panic
+
+/-- default `Register::write` as a total transition of `memory: &mut [u8]`, statement by statement:
+`let data = Self::serialize(data)?;` (no access to `memory`), `let range = Self::range();`,
+`memory[range]` (index panic), `.copy_from_slice(..)` (length assertion, then the copy — the only
+statement that changes `memory`). -/
+def defaultWriteSt {α} (address length : Nat) (serialize : α → R Bytes) (data : α) (memory : Bytes) :
+    Bytes × R Unit :=
+  match serialize data with
+  | .err e => (memory, .err e)
+  | .panic => (memory, .panic)
+  | .ok d =>
+    if address ≤ address + length ∧ address + length ≤ memory.length then
+      if d.length = length then
+        (memory.take address ++ d ++ memory.drop (address + length), .ok ())
+      else (memory, .panic)
+    else (memory, .panic)
 
 /-- default `Register::read`: `Self::parse(&memory[range])`. -/
 def Register.read {α} (r : Register α) (memory : Bytes) : R α :=
@@ -254,7 +278,8 @@ def scalarReg (e : Endian) (size : Nat) (address len : Nat) (ar : AccessRight) :
   { address := address, length := len, accessRight := ar
     parse := scalarParse e size
     serialize := scalarSerialize e size
-    write := defaultWrite address len (scalarSerialize e size) }
+    write := defaultWrite address len (scalarSerialize e size)
+    writeSt := defaultWriteSt address len (scalarSerialize e size) }
 
 /-! ### Template: `String` register.  A Rust `String` is modelled by its UTF-8 bytes. -/
 
@@ -283,7 +308,8 @@ def strReg (address len : Nat) (ar : AccessRight) : Register Bytes :=
   { address := address, length := len, accessRight := ar
     parse := strParse len
     serialize := strSerialize len
-    write := defaultWrite address len (strSerialize len) }
+    write := defaultWrite address len (strSerialize len)
+    writeSt := defaultWriteSt address len (strSerialize len) }
 
 /-! ### Template: `Bytes` register -/
 
@@ -296,7 +322,8 @@ def bytesReg (address len : Nat) (ar : AccessRight) : Register Bytes :=
   { address := address, length := len, accessRight := ar
     parse := bytesParse
     serialize := bytesSerialize len
-    write := defaultWrite address len (bytesSerialize len) }
+    write := defaultWrite address len (bytesSerialize len)
+    writeSt := defaultWriteSt address len (bytesSerialize len) }
 
 /-! ### Template: `BitField<ty, LSB = .., MSB = ..>` (register_map.rs:717-853)
 
@@ -405,12 +432,35 @@ def bfWrite (e : Endian) (signed : Bool) (w lsb msb : Nat) (mn mx : Int) (addres
         .ok (memory.take address ++ writeWordFront e (w / 8) new.toNat cur ++
           memory.drop (address + len))
 
+/-- the generated bit-field `write` as a total transition of `memory: &mut [u8]`:
+`masked_int(data)?` (no access to `memory`), `memory.index(range)` (index panic) and
+`read_bytes` of the old word (`?`), then `memory.index_mut(range).write_bytes(new).unwrap()` — the
+only statement that changes `memory`, and the last one. -/
+def bfWriteSt (e : Endian) (signed : Bool) (w lsb msb : Nat) (mn mx : Int) (address len : Nat)
+    (data : BitVec w) (memory : Bytes) : Bytes × R Unit :=
+  match bfMaskedInt signed w lsb msb mn mx data with
+  | .err x => (memory, .err x)
+  | .panic => (memory, .panic)
+  | .ok d =>
+    match slice memory address (address + len) with
+    | .err x => (memory, .err x)
+    | .panic => (memory, .panic)
+    | .ok cur =>
+      match readWord e (w / 8) cur with
+      | .err x => (memory, .err x)
+      | .panic => (memory, .panic)
+      | .ok orig =>
+        let new := bfMerge signed w lsb msb (BitVec.ofNat w orig) d
+        (memory.take address ++ writeWordFront e (w / 8) new.toNat cur ++
+          memory.drop (address + len), .ok ())
+
 def bfReg (e : Endian) (signed : Bool) (w lsb msb : Nat) (mn mx : Int) (address len : Nat)
     (ar : AccessRight) : Register (BitVec w) :=
   { address := address, length := len, accessRight := ar
     parse := bfParse e signed w lsb msb
     serialize := bfSerialize e signed w lsb msb mn mx
-    write := bfWrite e signed w lsb msb mn mx address len }
+    write := bfWrite e signed w lsb msb mn mx address len
+    writeSt := bfWriteSt e signed w lsb msb mn mx address len }
 
 /-! ## Layout constants (register_map.rs:160-240, 211-227, 299) -/
 
@@ -585,6 +635,106 @@ def Mem.new (frags : List Fragment) : R Mem :=
     | .ok (raw, mp) => .ok ⟨raw, mp, []⟩
     | .err x => .err x
     | .panic => .panic
+
+/-! ## `&mut self` calls as TOTAL state transitions
+
+`Post` is what a caller can observe of a `&mut self` call: the memory afterwards (raw image,
+protection, registered observers) in EVERY outcome, the observers whose `update()` ran during
+the call (the observer log of this call), and the returned value / panic.  The functions below
+follow the generated bodies statement by statement, threading the state explicitly, so that a
+mutation or a notification before an early `return Err(..)` / `?` would show up in the result.
+The driver runs THESE functions (the differential compares image, rights and fired observers
+after every call, failing ones included). -/
+
+structure Post (α : Type) where
+  mem : Mem
+  fired : List Nat
+  res : R α
+
+/-- generated `write_raw(addr, buf)` -/
+def Mem.writeRawPost (p : Profile) (m : Mem) (addr : Nat) (buf : Bytes) : Post Unit :=
+  -- `let end = addr.checked_add(buf.len()).ok_or(InvalidAddress)?;`
+  if addr + buf.length ≥ 2 ^ 64 then ⟨m, [], .err .invalidAddress⟩ else
+  let e := addr + buf.length
+  -- `if end > self.raw.len() { return Err(InvalidAddress) }`
+  if e > m.raw.length then ⟨m, [], .err .invalidAddress⟩ else
+  -- `self.protection.verify_address_with_range(range.clone())?;`   (&self)
+  match m.protection.verifyAddressWithRange addr e with
+  | .err x => ⟨m, [], .err x⟩
+  | .panic => ⟨m, [], .panic⟩
+  | .ok () =>
+    -- `let access_right = self.protection.access_right_with_range(range.clone());`   (&self)
+    match m.protection.accessRightWithRange p addr e with
+    | .err x => ⟨m, [], .err x⟩
+    | .panic => ⟨m, [], .panic⟩
+    | .ok ar =>
+      -- `if !access_right.is_writable() { return Err(AddressNotWritable) }`
+      if !ar.isWritable then ⟨m, [], .err .addressNotWritable⟩
+      else
+        -- `self.raw[range].copy_from_slice(buf);`  index / length panics precede the copy
+        match splice m.raw addr e buf with
+        | .err x => ⟨m, [], .err x⟩
+        | .panic => ⟨m, [], .panic⟩
+        | .ok raw' =>
+          let m1 := { m with raw := raw' }
+          -- `self.notify_all(start..end); Ok(())`
+          ⟨m1, m1.notifyAll addr e, .ok ()⟩
+
+/-- generated `write::<T>(data)`: `T::write(data, &mut self.raw)?; self.notify_all(T::range()); Ok(())`.
+Whatever `T::write` did to the image stays, also when it fails. -/
+def Mem.writePost {α} (m : Mem) (r : Register α) (data : α) : Post Unit :=
+  let st := r.writeSt data m.raw
+  let m1 := { m with raw := st.1 }
+  match st.2 with
+  | .ok () => ⟨m1, m1.notifyAll r.address r.rangeEnd, .ok ()⟩
+  | .err x => ⟨m1, [], .err x⟩
+  | .panic => ⟨m1, [], .panic⟩
+
+/-- `set_access_right_with_range` as a total transition: a `for_each` whose panic (cell outside
+the packed vector) keeps the cells already written; the flag says whether it ran to the end. -/
+def MemoryProtection.setRangeKeep (ar : AccessRight) : MemoryProtection → Nat → Nat → MemoryProtection × Bool
+  | mp, _, 0 => (mp, true)
+  | mp, a, n + 1 =>
+    match mp.setAccessRight a ar with
+    | .ok mp' => setRangeKeep ar mp' (a + 1) n
+    | _ => (mp, false)
+
+/-- generated `set_access_right::<T>(ar)` (returns `()`; there is no `Err` outcome) -/
+def Mem.setAccessRightPost {α} (m : Mem) (r : Register α) (ar : AccessRight) : Post Unit :=
+  let st := MemoryProtection.setRangeKeep ar m.protection r.address
+    (MemoryProtection.rangeCount r.address r.rangeEnd)
+  ⟨{ m with protection := st.1 }, [], if st.2 then .ok () else .panic⟩
+
+/-! ## Histories of `&mut self` calls -/
+
+/-- one `&mut self` call of a history, with the type-level register reduced to what the call
+uses: its range and (for typed writes) `T::write(data, ·)` as a total transition of the image -/
+inductive Call where
+  | writeRaw (addr : Nat) (buf : Bytes)
+  | write (address length : Nat) (st : Bytes → Bytes × R Unit)
+  | setAccessRight (address length : Nat) (ar : AccessRight)
+  | registerObserver (address length : Nat)
+
+/-- the register as far as ranges are concerned -/
+def rangeReg (address length : Nat) : Register Unit :=
+  { address := address, length := length, accessRight := .NA
+    parse := fun _ => .ok (), serialize := fun _ => .ok [], write := fun _ m => .ok m }
+
+/-- typed write with `T::write(data, ·)` given as a transition -/
+def Mem.writeCore (m : Mem) (address length : Nat) (st : Bytes → Bytes × R Unit) : Post Unit :=
+  m.writePost { rangeReg address length with writeSt := fun _ => st } ()
+
+/-- one call: the memory afterwards and the observers notified -/
+def Mem.step (p : Profile) (m : Mem) : Call → Mem × List Nat
+  | .writeRaw addr buf => ((m.writeRawPost p addr buf).mem, (m.writeRawPost p addr buf).fired)
+  | .write a l st => ((m.writeCore a l st).mem, (m.writeCore a l st).fired)
+  | .setAccessRight a l ar => ((m.setAccessRightPost (rangeReg a l) ar).mem, [])
+  | .registerObserver a l => (m.registerObserver (rangeReg a l), [])
+
+/-- a history of calls: final memory and the whole observer log -/
+def Mem.run (p : Profile) : Mem → List Call → Mem × List Nat
+  | m, [] => (m, [])
+  | m, c :: cs => ((Mem.run p (m.step p c).1 cs).1, (m.step p c).2 ++ (Mem.run p (m.step p c).1 cs).2)
 
 /-! ## One API call as a state transition
 
